@@ -425,10 +425,13 @@ impl<'a> Iterator for Tokenizer<'a> {
                     Some(Err(ErrorCode::SyntaxError))
                 } else {
                     util::skip_ws(&mut self.chars);
-                    if let Some(c) = self.chars.clone().next() {
-                        if *c == b',' || *c == b';' || *c == b'\n' {
+                    // A data separator must be followed by a data element,
+                    // not by another separator, a terminator or the end of the message
+                    match self.chars.clone().next() {
+                        None | Some(b',') | Some(b';') | Some(b'\n') => {
                             return Some(Err(ErrorCode::SyntaxError));
                         }
+                        _ => {}
                     }
                     Some(Ok(Token::ProgramDataSeparator))
                 }
